@@ -431,6 +431,43 @@ def param(id_, values, nn=False, dtype=None):
     return p
 
 
+def declared(form, id_, shape_like, value, dtype=None):
+    """a Parameter of the given constant value declared through one of the forms Parameter.from_json offers;
+    `shape_like` = (n, id of an earlier parameter with n entries, inline?)"""
+    n, ref, inline = shape_like
+    other = {"id": id_ + ".shape", "type": "Parameter", "tensor": [0.0] * n} if inline else ref
+    p = {"id": id_, "type": "Parameter"}
+    if form == "full":
+        p.update(full=[n], tensor=value)
+    elif form == "full-int":
+        p.update(full=n, tensor=value)
+    elif form == "full_like":
+        p.update(full_like=other, tensor=value)
+    elif form == "zeros":
+        p.update(zeros=n)
+    elif form == "zeros_like":
+        p.update(zeros_like=other)
+    elif form == "ones":
+        p.update(ones=[n])
+    elif form == "ones_like":
+        p.update(ones_like=other)
+    elif form == "dimension":
+        p.update(tensor=[value], dimension=n)
+    else:
+        raise InfraError("unknown form " + form)
+    if dtype:
+        p["dtype"] = dtype
+    return p
+
+
+FORMS = {
+    # x (3 entries, any real), y (2, positive), z (3, simplex), h (2, any real), mass matrix
+    "A": {"x": ("full", 0.75, False), "y": ("ones_like", 1.0, False), "z": ("full_like", 1 / 3, False), "h": ("zeros_like", 0.0, False), "mm": "ones"},
+    "B": {"x": ("zeros", 0.0, False), "y": ("full-int", 1.5, False), "z": ("dimension", 1 / 3, False), "h": ("full_like", 0.3, True), "mm": "eye_like"},
+    "C": {"x": ("zeros_like", 0.0, True), "y": ("ones", 1.0, False), "z": ("full", 1 / 3, False), "h": ("full", -0.4, False), "mm": "eye"},
+}
+
+
 SCHEDULERS = {
     "none": None,
     "StepLR": {"step_size": 2, "gamma": 0.5},
@@ -456,11 +493,20 @@ def optimisers():
                   and n != "Optimizer")
 
 
-def spec_opt(algo, sched, iters, freq, nn, two_d, explicit_dtype):
+def spec_opt(algo, sched, iters, freq, nn, two_d, explicit_dtype, forms=None):
     x = [[1.0, 2.0, -0.5], [0.25, -1.5, 3.0]] if two_d else [1.0, 2.0, -0.5]
+    if forms and not two_d:
+        px = declared("full", "x", (3, None, False), 1.5, explicit_dtype)
+        pw = declared({"A": "zeros_like", "B": "ones", "C": "full_like"}[forms], "w", (3, "x", forms == "C"), 0.25, explicit_dtype)
+        for p_ in (px, pw):
+            if nn:
+                p_["nn"] = True
+    else:
+        px = param("x", x, nn, explicit_dtype)
+        pw = param("w", [0.5, -0.25], nn, explicit_dtype) if not two_d else param("w", [[0.5, -0.25], [1.0, 2.0]], nn, explicit_dtype)
     s = [
-        param("x", x, nn, explicit_dtype),
-        param("w", [0.5, -0.25], nn, explicit_dtype) if not two_d else param("w", [[0.5, -0.25], [1.0, 2.0]], nn, explicit_dtype),
+        px,
+        pw,
         {"id": "loss", "type": "JointDistributionModel", "distributions": [normal("d1", "x", 0.5, 2.0), normal("d2", "w", -1.0, 0.5)]},
         {"id": "opt", "type": "Optimizer", "algorithm": "torch.optim." + algo, "loss": "loss", "parameters": ["x", "w"],
          "iterations": iters, "checkpoint": "ck.json", "checkpoint_frequency": freq, "checkpoint_all": True, "options": {}},
@@ -506,10 +552,35 @@ def adaptor(kind):
     return a
 
 
-def spec_mcmc(ops, adaptors, iters, freq):
+def spec_mcmc(ops, adaptors, iters, freq, forms=None, pdtype=None, inline=None):
     from torchtree.evolution.tree_model import TimeTreeModel
 
-    s = [param("x", [1.0, 2.0, -0.5]), param("y", [1.0, 2.0]), param("z", [0.2, 0.3, 0.5]), param("h", [0.3, -0.4])]
+    if forms:
+        F = FORMS[forms]
+        s = []
+        order = {"A": ["x", "y", "z", "h"], "B": ["x", "y", "z", "h"], "C": ["x", "y", "z", "h"]}[forms]
+        like = {"x": (3, None), "y": (2, "h0"), "z": (3, "x"), "h": (2, "y")}
+        s.append({"id": "h0", "type": "Parameter", "tensor": [0.0, 0.0]})
+        for nm in order:
+            form, value, inline = F[nm]
+            n, ref = like[nm]
+            s.append(declared(form, nm, (n, ref or "z", inline), value, pdtype))
+    else:
+        s = [param("x", [1.0, 2.0, -0.5], dtype=pdtype), param("y", [1.0, 2.0], dtype=pdtype), param("z", [0.2, 0.3, 0.5], dtype=pdtype),
+             param("h", [0.3, -0.4], dtype=pdtype)]
+    if inline == "unsaved":
+        # y (sampled) is defined inline inside q, a parameter nothing samples and no checkpoint lists
+        y = next(p_ for p_ in s if p_["id"] == "y")
+        s.remove(y)
+        s.insert(0, {"id": "q", "type": "Parameter", "zeros_like": y})
+    elif inline == "saved":
+        # y (sampled) is defined inline inside x, which is sampled — and therefore replaced on restart — too
+        y = next(p_ for p_ in s if p_["id"] == "y")
+        x = next(p_ for p_ in s if p_["id"] == "x")
+        s.remove(y)
+        y["tensor"] = [1.0, 2.0, 1.5]
+        x.pop("tensor")
+        x.update(full_like=y, tensor=0.5)
     dists = [normal("dx", "x", 0.5, 2.0),
              {"id": "dy", "type": "Distribution", "distribution": "torch.distributions.LogNormal", "x": "y",
               "parameters": {"loc": param("dy.loc", [0.1]), "scale": param("dy.scale", [1.0])}},
@@ -536,7 +607,10 @@ def spec_mcmc(ops, adaptors, iters, freq):
         "gmrf": {"id": "op.g", "type": "GMRFPiecewiseCoalescentBlockUpdatingOperator", "coalescent": "coal", "gmrf": "gmrf", "weight": 1.0},
         "hmc": {"id": "op.h", "type": "HMCOperator", "joint": "joint", "parameters": ["h"], "weight": 2.0,
                 "integrator": {"id": "leap", "type": "LeapfrogIntegrator", "steps": 3, "step_size": 0.1},
-                "mass_matrix": ({"id": "mm", "type": "Parameter", "eye": 2} if "mma-dense" in adaptors
+                "mass_matrix": ({"id": "mm", "type": "Parameter", "eye": 2} if "mma-dense" in adaptors and not forms
+                                else {"id": "mm", "type": "Parameter", "eye_like": "h"} if "mma-dense" in adaptors and FORMS[forms]["mm"] == "eye_like"
+                                else {"id": "mm", "type": "Parameter", "eye": [2, 2]} if "mma-dense" in adaptors
+                                else {"id": "mm", "type": "Parameter", "ones": 2} if forms and FORMS[forms]["mm"] == "ones"
                                 else {"id": "mm", "type": "Parameter", "ones_like": "h"}),
                 "adaptors": [adaptor("mma" if a == "mma-dense" else a) for a in adaptors]},
     }
@@ -614,6 +688,7 @@ class Runner:
         self.table_conds = {c["name"]: c for c in table["classes"]}
         self.checked_classes = set()
         self.skipped = collections.Counter()
+        self.twice_done = {}
 
     def wd(self):
         self.n += 1
@@ -799,6 +874,37 @@ class Runner:
                 self.fail.append((f"resume-differs:{tag}:states",
                                   f"{_cfg_tag(cfg)}: run resumed after iteration {k} leaves the uninterrupted trajectory "
                                   f"{i + 1} step(s) after the restart", dict(replay, steps_after_restart=i + 1)))
+                continue
+            # ---- restarting twice in a row: the resumed run is interrupted again at its own next checkpoint
+            # (the resumed run counts its own steps: its snapshot j is the uninterrupted run's snapshot k + j)
+            later = sorted(j for j in res.snaps if k + j in full.snaps and k + j < n_iter)
+            if kind != "HMC" and later and (cfg.get("twice") or k == ks[0]) and not self.twice_done.get(key[:2], False):
+                self.twice_done[key[:2]] = True
+                k2 = k + later[0]
+                snap2 = res.snaps[later[0]]
+                ck.case((kind, json.dumps(cfg, sort_keys=True), k, k2), bucket=f"restart-twice/{kind}")
+                rp2 = dict(replay, second_interrupt_after=k2)
+                for d in all_diffs(allowed_canon(full.snaps[k2]["state"]), allowed_canon(snap2["state"])):
+                    self.fail.append((f"second-checkpoint-differs:{kind}:{_diff_class(d)}",
+                                      f"{_cfg_tag(cfg)}: the checkpoint written at iteration {k2} by the run resumed after {k} differs from the "
+                                      f"uninterrupted run's checkpoint of iteration {k2}: {d}", dict(rp2, diff=d)))
+                w = self.wd()
+                shutil.copyfile(snap2["file"], os.path.join(w, "ck.json"))
+                res2, err = run_main(spec_fn(), args + ["--checkpoint", "ck.json"], w, rng=snap2["rng"])
+                if err is not None:
+                    self.fail.append((f"resume-raises:{err['where']}:{err['type']}",
+                                      f"second restart (after {k}, then after {k2}) raises {err['type']}: {err['msg']}", dict(rp2, error=err)))
+                    continue
+                want2, got2 = full.rec[k2:], res2.rec
+                if [l for l, _ in want2] != [l for l, _ in got2]:
+                    self.fail.append((f"resume-differs:{loop}:labels", f"{loop}: restarted after {k} and again after {k2} of {n_iter}: visits "
+                                      f"{[l for l, _ in got2]}, the uninterrupted run {[l for l, _ in want2]}", rp2))
+                elif not _same_states(want2, got2):
+                    i = next(i for i, (a, b) in enumerate(zip(want2, got2)) if not _same_states([a], [b]))
+                    tag = kind if kind in ("Optimizer", "HMC") else "MCMC:" + _cfg_tag(cfg)
+                    self.fail.append((f"resume-differs:{tag}:states:second-restart",
+                                      f"{_cfg_tag(cfg)}: restarted after iteration {k} and again after {k2}: leaves the uninterrupted trajectory "
+                                      f"{i + 1} step(s) after the second restart", dict(rp2, steps_after_restart=i + 1)))
 
     def check_attached(self, algo, snap, replay, dflt):
         """torch optimiser: does every parameter find the state that was saved for it?"""
@@ -839,7 +945,14 @@ def _is_checkpoint_write_error(err):
 def _cfg_tag(cfg):
     if "ops" not in cfg and "algo" not in cfg:
         return "HMC"
-    return cfg.get("algo") or ("+".join(cfg.get("ops", [])) + "/" + cfg.get("adaptors", ""))
+    tag = cfg.get("algo") or ("+".join(cfg.get("ops", [])) + "/" + cfg.get("adaptors", ""))
+    if cfg.get("forms"):
+        tag += f"[declared:{cfg['forms']}]"
+    if cfg.get("inline"):
+        tag += f"[y defined inline inside a parameter that is {'not ' if cfg['inline'] == 'unsaved' else ''}in the checkpoint]"
+    if cfg.get("pdtype"):
+        tag += f"[{cfg['pdtype']} parameters, default {cfg.get('dtype')}]"
+    return tag
 
 
 def _diff_class(d: str) -> str:
@@ -1000,8 +1113,25 @@ def part_reinject(ck: Check, drv, n, fails):
         saved_param = Parameter("p", torch.nn.Parameter(vals) if nn else vals)
         saved = json.loads(json.dumps(saved_param, cls=t["Enc"]), cls=t["Dec"])
         spec = {"id": "p", "type": rng.choice(["Parameter", "torchtree.Parameter", "torchtree.core.parameter.Parameter"])}
-        ctor = rng.choice(["tensor", "full", "zeros", "ones", "tensor+dimension", "arange"])
-        if ctor == "tensor":
+        # every way Parameter.from_json lets a configuration declare a parameter (the first iterations take every form in turn)
+        forms = ["tensor", "full", "zeros", "ones", "tensor+dimension", "arange", "full_like", "zeros_like", "ones_like", "eye", "eye_like",
+                 "full+rand", "full_like+rand"]
+        ctor = forms[i] if i < len(forms) else rng.choice(forms)
+        other = rng.choice(["q", {"id": "q", "type": "Parameter", "tensor": [0.25, 0.75]}])  # referenced / defined inline
+        if ctor == "full_like":
+            spec["full_like"] = other
+            spec["tensor"] = 0.1
+        elif ctor in ("zeros_like", "ones_like", "eye_like"):
+            spec[ctor] = other
+        elif ctor == "eye":
+            spec["eye"] = rng.choice([2, [2, 3]])
+        elif ctor == "full+rand":
+            spec["full"] = [2]
+            spec["rand"] = "normal(0.0,1.0)"
+        elif ctor == "full_like+rand":
+            spec["full_like"] = other
+            spec["rand"] = "uniform"
+        elif ctor == "tensor":
             spec["tensor"] = [0.0, 1.0]
         elif ctor == "full":
             spec["full"] = [2]
@@ -1019,32 +1149,55 @@ def part_reinject(ck: Check, drv, n, fails):
             spec["dtype"] = "torch." + rng.choice(["float32", "float64"])
         if rng.random() < 0.5:
             spec["nn"] = rng.random() < 0.5
-        if rng.random() < 0.2:
-            spec["requires_grad"] = False
-        wrapped = {"id": "outer", "type": "Something", "x": [dict(spec), "ref"], "n": 3}
+        if rng.random() < 0.3:
+            spec["requires_grad"] = rng.random() < 0.5
+        if rng.random() < 0.3:
+            # "meta" stands for "a device other than the default one" on a machine that has none
+            spec["device"] = rng.choice(["cpu", "meta"])
+        nested = rng.random() < 0.25  # the entry is defined inline inside a parameter the checkpoint does not list
+        wrapped = {"id": "outer", "type": "Something", "n": 3,
+                   "x": [dict(spec) if not nested else {"id": "unsaved", "type": "Parameter", rng.choice(["zeros_like", "full_like", "eye_like"]): dict(spec),
+                                                         "tensor": 0.5}, "ref"]}
         torch.set_default_dtype(getattr(torch, dflt))
         try:
             try:
                 live = json.loads(json.dumps(wrapped))
                 update_parameters(live, {"p": saved})
                 entry = live["x"][0]
+                if nested:
+                    entry = next(v_ for k_, v_ in entry.items() if k_.endswith("_like"))
                 rebuilt = Parameter.from_json(entry, {})
-                impl = "ok " + " ".join(toks(rebuilt))
+                on_meta = rebuilt.tensor.device.type == "meta"
+                impl = "ok " + " ".join(toks(rebuilt)) if not on_meta else "meta"
             except Exception as e:
                 rebuilt, impl = None, "raise"
                 entry = None
+                on_meta = False
         finally:
             torch.set_default_dtype(torch.float32)
         ck.case(("reinject", json.dumps(spec, sort_keys=True), str(dt), nn, dflt), nontrivial=True, bucket="reinject/" + ctor)
         if drv:
-            model = drv.ask(f"reinject {dflt} " + " ".join(toks(spec)) + " || " + " ".join(toks(saved)))
-            if model != impl:
+            if nested:
+                model = drv.ask(f"reinject-nested {dflt} " + " ".join(toks(wrapped["x"][0])) + " || " + " ".join(toks(saved)))
+            else:
+                model = drv.ask(f"reinject {dflt} " + " ".join(toks(spec)) + " || " + " ".join(toks(saved)))
+            if model != impl and not on_meta:
                 ck.mismatch("re-injection differs from the Lean model", {"spec": spec, "saved_dtype": str(dt), "nn": nn, "default": dflt,
                                                                           "impl": impl[:200], "model": model[:200]})
         spec_dt = spec.get("dtype", "torch." + dflt)
         if rebuilt is None:
             fails.append(("reinject-raises", f"Parameter.from_json after update_parameters raises for spec {spec}",
                           {"spec": spec, "default_dtype": dflt, "saved": " ".join(toks(saved_param))}))
+        elif rebuilt.tensor.device.type != spec.get("device", "cpu"):
+            fails.append(("reinject-device", f"the configuration declares the parameter on device '{spec['device']}' (neither ParameterEncoder nor "
+                          f"TensorEncoder records a device); after update_parameters the rebuilt parameter is on '{rebuilt.tensor.device}' "
+                          f"(entry left: {sorted(entry)})", {"spec": spec, "default_dtype": dflt, "saved": " ".join(toks(saved_param))}))
+        elif bool(rebuilt.tensor.requires_grad) != bool(spec.get("requires_grad", False) or spec.get("nn", False)):
+            fails.append(("reinject-requires_grad", f"the configuration declares requires_grad = {spec.get('requires_grad')}; the parameter rebuilt after "
+                          f"update_parameters has requires_grad = {rebuilt.tensor.requires_grad} (entry left: {sorted(entry)})",
+                          {"spec": spec, "default_dtype": dflt, "saved": " ".join(toks(saved_param))}))
+        elif on_meta:
+            pass
         elif spec_dt == str(dt) and bool(spec.get("nn", False)) == nn:
             if " ".join(toks(rebuilt)) != " ".join(toks(saved_param)):
                 fails.append(("reinject-differs", f"parameter rebuilt from the checkpoint differs from the saved one (spec {spec})",
@@ -1123,6 +1276,14 @@ def opt_configs(ck: Check):
         # torch.optim itself cast state tensors such as ASGD's eta on load: torch's policy, not torchtree's)
         if rng.random() < 0.4:
             c["explicit_dtype"] = "torch." + c["dtype"]
+    # … except for optimisers whose state is all parameter-shaped: float32 parameters under a float64 default and vice versa
+    for a, pd, dd in (("Adam", "float32", "float64"), ("SGD", "float64", "float32"), ("RMSprop", "float32", "float64"), ("Adagrad", "float64", "float32")):
+        cfgs.append({"algo": a, "sched": rng.choice(["none", "StepLR", "ExponentialLR"]), "iters": 6, "freq": 2, "dtype": dd, "nn": rng.random() < 0.5,
+                     "two_d": False, "explicit_dtype": "torch." + pd, "pdtype": "torch." + pd, "twice": True})
+    # parameters declared through full / zeros_like / ones / full_like (inline shape)
+    for f_ in ("A", "B", "C"):
+        cfgs.append({"algo": rng.choice(["Adam", "SGD", "Adagrad"]), "sched": "none", "iters": 6, "freq": 2, "dtype": rng.choice(["float32", "float64"]),
+                     "nn": f_ == "B", "two_d": False, "explicit_dtype": None, "forms": f_, "twice": True})
     return cfgs
 
 
@@ -1145,6 +1306,16 @@ def mcmc_configs(ck: Check):
             c.update(iters=60, freq=20, points="all")
         cfgs.append(c)
     cfgs.append({"ops": list(OPERATORS), "adaptors": "mma+dass", "iters": 36, "freq": 12})
+    # parameters declared through every form of Parameter.from_json (full / zeros / ones / *_like / eye / eye_like / dimension,
+    # referenced and inline shapes)
+    for f_, ad in (("A", "mma+dass"), ("B", "mma-dense"), ("C", "mma-dense")):
+        cfgs.append({"ops": ["sliding", "scaler", "dirichlet", "hmc"], "adaptors": ad, "forms": f_, "iters": 12, "freq": 4, "points": "all", "twice": True})
+    cfgs.append({"ops": ["sliding", "scaler"], "adaptors": "none", "inline": "unsaved", "iters": 8, "freq": 4, "points": "all"})
+    cfgs.append({"ops": ["sliding", "scaler"], "adaptors": "none", "inline": "saved", "iters": 8, "freq": 4, "points": "all"})
+    # parameter dtype declared in the configuration and different from the default dtype of the run
+    for pd, dd in (("torch.float32", "float64"), ("torch.float64", "float32")):
+        cfgs.append({"ops": ["sliding", "scaler", "dirichlet", "hmc"], "adaptors": "mma+dass", "pdtype": pd, "dtype": dd, "iters": 12, "freq": 4,
+                     "points": "all", "twice": True})
     cfgs.append({"ops": ["sliding", "hmc"], "adaptors": rng.choice(list(ADAPTORS))})
     if ck.thorough():
         for _ in range(12):
@@ -1154,22 +1325,60 @@ def mcmc_configs(ck: Check):
         it = rng.choice([9, 12]) if not ck.thorough() else rng.choice([12, 24, 120])
         c.setdefault("iters", it)
         c.setdefault("freq", 40 if c["iters"] == 120 else rng.choice([3, 4]))
-        c.update(dtype=rng.choice(["float32", "float64"]), seed=rng.randrange(1, 1000))
+        d_ = rng.choice(["float32", "float64"])
+        c.setdefault("dtype", d_)
+        c.update(seed=rng.randrange(1, 1000))
     return cfgs
+
+
+def inline_in_saved_parameter(runner: Runner, cfg, fn, args):
+    """a sampled parameter defined inline inside another sampled parameter (`full_like: {…}`): on restart update_parameters
+    replaces the outer entry wholesale and the inline definition goes with it"""
+    ck = runner.ck
+    full, err = run_main(fn(), args, runner.wd())
+    if err is not None or not full.snaps:
+        runner.skipped[f"{_cfg_tag(cfg)}: uninterrupted run raises"] += 1
+        return
+    k = sorted(full.snaps)[0]
+    w = runner.wd()
+    os.makedirs(w, exist_ok=True)
+    shutil.copyfile(full.snaps[k]["file"], os.path.join(w, "ck.json"))
+    res, err = run_main(fn(), args + ["--checkpoint", "ck.json"], w, rng=full.snaps[k]["rng"])
+    ck.case(("inline-saved", json.dumps(cfg, sort_keys=True), k), bucket="restart/inline-definition")
+    replay = {"kind": "MCMC", "config": cfg, "args": args, "interrupt_after": k}
+    if err is not None or not res.rec:
+        runner.fail.append(("restart-loses-inline-definition",
+                            f"{_cfg_tag(cfg)}: restart after iteration {k} "
+                            + (f"raises {err['type']}: {err['msg']}" if err else "logs 'Object with ID `y' not found' and performs no iteration")
+                            + " (update_parameters deletes the full_like key of x, and the definition of y with it)", replay))
+    elif not _same_states(full.rec[k:], res.rec):
+        runner.fail.append(("resume-differs:MCMC:inline-definition:states", f"{_cfg_tag(cfg)}: resumed run leaves the uninterrupted trajectory", replay))
 
 
 def run_cfg(runner: Runner, kind, cfg, points):
     if kind == "Optimizer":
-        fn = lambda: spec_opt(cfg["algo"], cfg["sched"], cfg["iters"], cfg["freq"], cfg["nn"], cfg["two_d"], cfg["explicit_dtype"])  # noqa: E731
+        fn = lambda: spec_opt(cfg["algo"], cfg["sched"], cfg["iters"], cfg["freq"], cfg["nn"], cfg["two_d"], cfg["explicit_dtype"], cfg.get("forms"))  # noqa: E731
         args = ["--dtype", cfg["dtype"], "-s", "1"]
     elif kind == "HMC":
         fn = lambda: spec_hmc(cfg["iters"], cfg["freq"], cfg.get("dense", False))  # noqa: E731
         args = ["--dtype", cfg["dtype"], "-s", str(cfg["seed"])]
     else:
-        fn = lambda: spec_mcmc(cfg["ops"], ADAPTORS[cfg["adaptors"]], cfg["iters"], cfg["freq"])  # noqa: E731
+        fn = lambda: spec_mcmc(cfg["ops"], ADAPTORS[cfg["adaptors"]], cfg["iters"], cfg["freq"], cfg.get("forms"), cfg.get("pdtype"), cfg.get("inline"))  # noqa: E731
         args = ["--dtype", cfg["dtype"], "-s", str(cfg["seed"])]
+    if cfg.get("inline") == "saved":
+        inline_in_saved_parameter(runner, cfg, fn, args)
+        return
     try:
+        before = sum(runner.skipped.values())
         runner.config(kind, cfg, fn, args, points)
+        tries = 0
+        while kind == "MCMC" and cfg.get("twice") and sum(runner.skipped.values()) > before and tries < 3:
+            # the uninterrupted run failed for a reason of its own (an operator never drawn: 0/0 in the final summary):
+            # these configurations are the only ones of their kind, so try another seed
+            tries += 1
+            before = sum(runner.skipped.values())
+            args = args[:-1] + [str(cfg["seed"] + tries)]
+            runner.config(kind, dict(cfg, seed=cfg["seed"] + tries), fn, args, points)
     except InfraError:
         raise
     except Exception as e:  # a harness-side conversion tripped over an implementation value
@@ -1216,6 +1425,69 @@ def subprocess_restart(ck: Check, runner: Runner, cfg):
         runner.fail.append((("resume-differs:Optimizer._run:labels" if extra else f"resume-differs:Optimizer:{cfg['algo']}:states"),
                             f"fresh process resumed after iteration {k}: final checkpoint differs from the uninterrupted run's"
                             + (f"; it rewrote the checkpoint of iteration {k}" if extra else ""), replay))
+
+
+SCAN_FILES = ("torchtree/core/utils.py", "torchtree/core/parameter_encoder.py", "torchtree/core/parameter_utils.py", "torchtree/core/parameter.py",
+              "torchtree/inference/hmc/adaptation.py", "torchtree/ops/welford.py", "torchtree/optim/optimizer.py",
+              "torchtree/inference/mcmc/mcmc.py", "torchtree/inference/mcmc/operator.py", "torchtree/inference/hmc/operator.py",
+              "torchtree/inference/hmc/hmc.py", "torchtree/inference/hmc/hamiltonian.py")
+
+
+def constructor_scan():
+    """tensor constructors without dtype (or without device) in the files a checkpoint passes through"""
+    import ast
+
+    ctors = ("ones", "zeros", "tensor", "arange", "full", "eye", "empty", "linspace", "as_tensor")
+    rows = []
+    for rel in SCAN_FILES:
+        path = Path(REPO) / rel
+        if not path.exists():
+            continue
+        tree = ast.parse(path.read_text())
+        parents = {}
+        for node in ast.walk(tree):
+            for ch in ast.iter_child_nodes(node):
+                parents[ch] = node
+        for node in ast.walk(tree):
+            if (isinstance(node, ast.Call) and isinstance(node.func, ast.Attribute) and isinstance(node.func.value, ast.Name)
+                    and node.func.value.id == "torch" and node.func.attr in ctors):
+                kws = {k.arg for k in node.keywords}
+                if None in kws or ("dtype" in kws and "device" in kws):
+                    continue
+                fn, cur = [], node
+                while cur in parents:
+                    cur = parents[cur]
+                    if isinstance(cur, (ast.FunctionDef, ast.ClassDef)):
+                        fn.insert(0, cur.name)
+                rows.append({"file": rel, "line": node.lineno, "where": ".".join(fn), "call": ast.unparse(node)[:90],
+                             "missing": [k for k in ("dtype", "device") if k not in kws]})
+    return rows
+
+
+def failure_paths(ck: Check, runner: Runner):
+    """what a restart does when the checkpoint cannot be used: it must fail, never start silently from the configuration"""
+    cfg = {"algo": "Adam", "sched": "none", "iters": 4, "freq": 2, "dtype": "float64", "nn": False, "two_d": False, "explicit_dtype": None}
+    fn = lambda: spec_opt(cfg["algo"], cfg["sched"], cfg["iters"], cfg["freq"], cfg["nn"], cfg["two_d"], cfg["explicit_dtype"])  # noqa: E731
+    args = ["--dtype", "float64", "-s", "1"]
+    full, err = run_main(fn(), args, runner.wd())
+    if err or not full.snaps:
+        return
+    text = open(full.snaps[sorted(full.snaps)[0]]["file"]).read()
+    table = {}
+    for name, content in (("truncated", text[: len(text) // 2]), ("empty", ""), ("missing", None), ("not-a-list", json.dumps({"id": "opt"}))):
+        w = runner.wd()
+        os.makedirs(w, exist_ok=True)
+        if content is not None:
+            with open(os.path.join(w, "ck.json"), "w") as f:
+                f.write(content)
+        res, err = run_main(fn(), args + ["--checkpoint", "ck.json"], w)
+        ck.case(("failure-path", name), bucket="failure-path/" + name)
+        table[name] = f"raises {err['type']}" if err else f"no error, {len(res.rec)} iteration(s) performed"
+        if err is None and res.rec:
+            runner.fail.append((f"unusable-checkpoint-ignored:{name}",
+                                f"restart with a {name} checkpoint file raises nothing and performs {len(res.rec)} iterations from the configuration's initial values",
+                                {"kind": "Optimizer", "config": cfg, "args": args, "checkpoint": name}))
+    ck.extra["failure_paths"] = table
 
 
 # ============================================================================ entry points
@@ -1281,6 +1553,8 @@ def run(ck: Check):
         runnable = [c for c in ocfgs if c["algo"] in ("Adam", "SGD", "RMSprop", "Adagrad")]
         for cfg in ck.rng.sample(runnable, min(len(runnable), 6 if ck.thorough() else 1)):
             subprocess_restart(ck, runner, cfg)
+        failure_paths(ck, runner)
+        ck.extra["tensor_constructors_without_dtype_or_device"] = constructor_scan()
         # every generated class met on a live object?
         seen = {c if isinstance(c, str) else c[0] for c in runner.checked_classes}
         missing = [c["name"] for c in table["classes"] if c["name"] not in seen]
@@ -1332,12 +1606,21 @@ def replay(path: str) -> int:
         try:
             update_parameters(spec, {"p": saved})
             rebuilt = Parameter.from_json(spec, {})
-            back = " ".join(toks(rebuilt))
+            back = " ".join(toks(rebuilt)) if rebuilt.tensor.device.type != "meta" else "(on the meta device)"
         except Exception as e:
+            rebuilt = None
             back = "raise " + repr(e)
         want = " ".join(toks(saved_param))
         print("spec after update_parameters:", spec, "\nrebuilt:", back, "\nsaved  :", want)
-        bad = back != want
+        sig = obj.get("signature", "")
+        if rebuilt is not None and sig == "reinject-device":
+            print("declared device:", obj["spec"].get("device", "cpu"), " device after the restart:", rebuilt.tensor.device)
+            bad = rebuilt.tensor.device.type != obj["spec"].get("device", "cpu")
+        elif rebuilt is not None and sig == "reinject-requires_grad":
+            print("declared requires_grad:", obj["spec"].get("requires_grad"), " after the restart:", rebuilt.tensor.requires_grad)
+            bad = bool(rebuilt.tensor.requires_grad) != bool(obj["spec"].get("requires_grad", False) or obj["spec"].get("nn", False))
+        else:
+            bad = back != want
         print("VIOLATES" if bad else "ok")
         return 1 if bad else 0
     if "config" not in obj:
